@@ -28,8 +28,8 @@ class DeterministicCrowding(GeneralizedCrowding):
     """
     @staticmethod
     def _return_most_fit(child, parent):
-        if np.isnan(parent.fitness):
-            return child
         if np.isnan(child.fitness):
             return parent
+        if np.isnan(parent.fitness):
+            return child
         return child if child.fitness < parent.fitness else parent
